@@ -1,5 +1,5 @@
 from algo_prop import make
-LEAN_EXTRA = ["PyXABProofs.Generated.OrderTieC11", "PyXABProofs.Generated.FormulasC11"]
+LEAN_EXTRA = ["PyXABProofs.Props.ZoomingOptimism", "PyXABProofs.Generated.OrderTieC11", "PyXABProofs.Generated.FormulasC11"]
 ALGOS = ['Zooming']
 budget, explore, search, replay = make("C11", ALGOS, quick_per_algo=24, thorough_per_algo=300, salt=1100)
 RULE = ("the documented pull/receive loop on the real classes: algorithm x partition class (K 2..5) x dimension 1..3 x box shape x "
